@@ -29,7 +29,7 @@ import (
 func init() {
 	Register(&Monitor{
 		ID: "C15",
-		Rule: "hostile inputs to every public entry point, executed in child processes that journal each case (kind and raw input) before running it: random bytes; valid expressions/documents mutated at byte and token level; grammar-aware extremes (nested parentheses, flat chains of up to 120 operands for every binary operator with operands that decide / do not decide the result early, long step/predicate chains, very long names) sized for the super-linear GLL parser; XML/HTML/JSON with deep nesting and pathological constructs; every expression of a pool against every document of a pool; bindings with nil values and user functions that return (nil,nil), an error or panic; Unmarshal targets nil / non-pointers / nil pointers / pointer chains / maps / arrays / channels / funcs / interfaces; Exec with a nil cursor and a nil or zero Grammar; well-typed random queries over the whole builtin palette; " +
+		Rule: "hostile inputs to every public entry point, executed in child processes that journal each case (kind and raw input) before running it: random bytes; valid expressions/documents mutated at byte and token level; grammar-aware extremes (nested parentheses, flat chains of up to 120 operands for every binary operator with operands that decide / do not decide the result early, long step/predicate chains, very long names) sized for the super-linear GLL parser; XML/HTML/JSON with deep nesting and pathological constructs; every expression of a pool against every document of a pool; bindings with nil values and user functions that return (nil,nil), an error or panic; Unmarshal targets nil / non-pointers / nil pointers / pointer chains / maps / arrays / channels / funcs / interfaces / self- and mutually-recursive struct and pointer types; Exec with a nil cursor and a nil or zero Grammar; well-typed random queries over the whole builtin palette; " +
 			"oracle: every call returns within the per-case budget of 30 s of the child's processor time (rusage, not wall-clock; >= 10^3 x the slowest case on the unchanged tree) and returns (value, nil) or (_, error): a case over the budget (child stops, parent resumes after it), a panic escaping the API, a dead child (attributed to the journaled case), or (nil, nil) is a violation; for well-typed queries an error containing 'xpath query panic' is a violation. distinct_nontrivial = distinct (entry point, input class, outcome) triples where the outcome is not a plain success",
 		Assumptions: []string{"'terminates' is decided as 'returns within 30 s of processor time' for inputs of the generated sizes; the 20 min wall-clock watchdog around a shard only makes the run inconclusive", "inputs are sized so that the pinned tree answers each within seconds (GLL parsing is super-linear)"},
 		NCases:      func(tier string) int { return 0 },
@@ -186,6 +186,29 @@ func c15Gen(g *rng.R) c15Case {
 		return c15Case{"exec/well-typed", strconv.Itoa(g.Intn(1 << 30))}
 	}
 }
+
+// recursive target types: the recursion goes through tagged fields
+type c15Tree struct {
+	Name string    `xsel:"name()"`
+	Kids []c15Tree `xsel:"*"`
+}
+
+type c15List struct {
+	V    string   `xsel:"text()"`
+	Next *c15List `xsel:"*[1]"`
+}
+
+type c15Mutual struct {
+	ID    string     `xsel:"@id"`
+	Other []c15Peer  `xsel:"*"`
+	Up    *c15Mutual `xsel:"self::nomatch"`
+}
+
+type c15Peer struct {
+	Back []*c15Mutual `xsel:"*"`
+}
+
+type c15PtrLoop *c15PtrLoop
 
 type c15Result struct {
 	Outcome string // ok, error, VIOLATION:...
@@ -367,10 +390,12 @@ func c15Exec(c c15Case) (out c15Result) {
 		var np *T
 		var npp **T
 		var iface any
-		targets := []any{nil, T{}, np, npp, &np, map[string]int{}, &map[string]int{}, [1]int{}, make(chan int), func() {}, &iface, 3, "s", []string{}, &[][]int{}, &T{}, &[]T{}, new(**T), &struct{ x int `xsel:"1"` }{}, &struct {
+		targets := []any{nil, T{}, np, npp, &np, map[string]int{}, &map[string]int{}, [1]int{}, make(chan int), func() {}, &iface, 3, "s", []string{}, &[][]int{}, &T{}, &[]T{}, new(**T), &struct {
+			x int `xsel:"1"`
+		}{}, &struct {
 			M map[int]int `xsel:"*"`
-		}{}}
-		results := []xsel.Result{nil, xsel.NodeSet{}, xsel.NodeSet{nil}, xsel.NodeSet{c15World.docs[0]}, xsel.Number(1), xsel.String("x"), xsel.Bool(true), xsel.NodeSet{c15World.docs[0], c15World.docs[1]}}
+		}{}, &c15Tree{}, &c15List{}, &[]c15Tree{}, &c15Mutual{}, new(c15PtrLoop), &[]*c15List{}}
+		results := []xsel.Result{nil, xsel.NodeSet{}, xsel.NodeSet{nil}, xsel.NodeSet{c15World.docs[0]}, xsel.NodeSet{c15World.docs[0].Children()[0]}, xsel.Number(1), xsel.String("x"), xsel.Bool(true), xsel.NodeSet{c15World.docs[0], c15World.docs[1]}}
 		t := rng.Pick(g, targets)
 		res := rng.Pick(g, results)
 		err := xsel.Unmarshal(res, t)
